@@ -201,15 +201,23 @@ Definition mock_view (s : sig) : rsig :=
   {| r_async := true; r_name := s_name s; r_args := map render_arg (s_args s); r_ret := s_ret s; r_stub := false |}.
 
 (* ------------------------------------------------------------------ grouping: MocksEmitter vs EndpointsEmitter *)
-(* MocksEmitter._group_operations_by_tag: first tag only, raw spelling *)
-Definition first_tag (o : op) : str := match o_tags o with [] => s_default | t :: _ => t end.
-Definition mock_groups (l : list op) : list (str * list op) :=
-  fold_left (fun d o => aappend d (first_tag o) o) l [].
-
 Section Names.
   Variable method_name tag_key tag_attr tag_class : str -> str.
   Variable score : str -> bool * N * N.
   Variable py_ident : str -> bool.
+
+  (* MocksEmitter._group_operations_by_tag (after the fix of F13a/F13b): for every canonical tag of
+     ClientVisitor.tag_tuples(spec) — sorted by key — the operations that carry a tag with the same
+     normalised key (each once, document order); the dict is keyed by the canonical tag; emit() passes
+     over a tag without operations *)
+  Definition ops_of_key (k : str) (l : list op) : list op :=
+    filter (fun o => mem_str k (map tag_key (tags_or_default o))) l.
+  Definition mock_groups (l : list op) : list (str * list op) :=
+    match client_tags tag_key score l with
+    | Some m => filter (fun tg => negb (is_nil (snd tg)))
+                       (dict_of (map (fun kc => (snd kc, ops_of_key (tag_key (snd kc)) l)) (sort_by_key m)))
+    | None => []                                   (* max() of an empty candidate list: unreachable *)
+    end.
 
   (* mocks/endpoints/mock_<module>.py : (module, (Mock<Class>Client, method definitions)); later
      file with the same module name overwrites the earlier one *)
@@ -236,9 +244,4 @@ Section Names.
   Definition same_methods (l : list op) : Prop :=
     forall t g, In (t, g) (mock_groups l) -> alookup (tag_key t) (group tag_key l) = Some g.
 
-  (* guards *)
-  Definition guard_F13a (l : list op) : bool := forallb (fun o => Nat.leb (length (o_tags o)) 1) l.   (* single_tag *)
-  Definition guard_F13b (l : list op) : bool :=                                                   (* tags_spelled_uniformly *)
-    let ts := map first_tag l in
-    forallb (fun a => forallb (fun b => negb (str_eqb (tag_key a) (tag_key b)) || str_eqb a b) ts) ts.
 End Names.
